@@ -16,7 +16,7 @@ trim_scratch_cache
 cd "$wt" || exit 2
 clean() { git checkout -q -- . ; git clean -fdq -e "OUT*" >/dev/null 2>&1; }
 clean
-cmds=$(grep -E '^\s*(export [^;&]*(;|&&) *)?([A-Z_]+=\S+\s+)*(env |cp |mkdir |go test|go run|go build|\(cd |cd |\./)' "$out/RUN.txt" | sed 's/#.*$//' | sed -E 's/ GOCACHE=[^ ;&]*//' | grep -v 'git apply')
+cmds=$(grep -E '^\s*(export [^;&]*(;|&&) *)?([A-Z_]+=\S*\s+)*(env |cp |mkdir |go test|go run|go build|\(cd |cd |\./)' "$out/RUN.txt" | sed 's/#.*$//' | sed -E 's/ GOCACHE=[^ ;&]*//' | grep -v 'git apply')
 rundemo() { ( cd "$wt"; while IFS= read -r l; do [ -z "$l" ] && continue; eval "$l" || return 1; done <<< "$cmds" ) >"$out/.demo.$1.log" 2>&1; }
 rundemo clean; demo_clean=$?
 clean
